@@ -1,7 +1,7 @@
 """C15 -- docstring prose outside the parameter section is preserved.
 
-TLC: DocSplit.tla -- SplitConcat, HeaderClean, HeaderKept over all (header shape, footer shape, source style, target style,
-     indentation 0..2) = 648 behaviours.
+TLC: DocSplit.tla -- SplitConcat, HeaderClean, HeaderWhole, HeaderKept over all (header shape incl. dashed sub-headings, footer
+     shape, source style, target style, indentation 0..2, route: docstring parser+emitter / function parse+emit) = 2160 behaviours.
 R:   every behaviour is concretised (the section is produced by the REAL emitter in the source style, x 2 parameter sets);
      the real parse_docstring_into_header_args_footer splits it and the real restyle path (parse_docstring ->
      docstring.emit with _internal.original_doc_str) converts it; verdicts: the three parts concatenate to the original
@@ -37,6 +37,8 @@ def lines_of(shape, pool_offset):
         elif k == "D":
             out.append(DOCTEST[d % len(DOCTEST)])
             d += 1
+        elif k == "U":
+            out.append("-" * len(out[-1].strip()))
         else:
             out.append("")
     return out
@@ -54,9 +56,37 @@ def build(case, variant):
     header = lines_of(case["h"], 0)
     footer = lines_of(case["f"], 3)
     body = header + [""] + section.split("\n") + footer
-    pad = "    " * case["indent"]
+    pad = "    " * (case["indent"] + (1 if case.get("route") == "function" else 0))
     text = "\n" + "\n".join((pad + ln) if ln.strip() else ln for ln in body) + "\n" + pad
     return text, header, footer, section
+
+
+def function_parse(case, text, variant):
+    """a function definition nested `indent` classes deep carries the docstring; the real function parser reads it"""
+    import ast
+
+    import cdd.function.parse
+
+    sig = "alpha=5" if variant == 0 else 'dataset_name="mnist", as_numpy=None'
+    depth = case["indent"]
+    pad = "    " * depth
+    src = "".join("{}class C{}(object):\n".format("    " * k, k) for k in range(depth))
+    src += '{pad}def f({sig}):\n{pad}    """{text}"""\n{pad}    pass\n'.format(pad=pad, sig=sig, text=text)
+    node = ast.parse(src).body[0]
+    for _ in range(depth):
+        node = node.body[0]
+    return node, cdd.function.parse.function(node)
+
+
+def function_emit(case, ir):
+    """... and the real function emitter writes it back in the target style (the path `doctrans` takes)"""
+    import ast
+
+    import cdd.function.emit
+
+    fn = cdd.function.emit.function(copy.deepcopy(ir), function_name="f", function_type="static", docstring_format=case["to"],
+                                    indent_level=case["indent"])
+    return ast.get_docstring(fn, clean=False) or ""
 
 
 def run_case(args):
@@ -87,20 +117,39 @@ def run_case(args):
             bad = [ln for ln in part.split("\n") if ln.strip().startswith(TOKENS) and ln.strip() not in prose_h + prose_f]
             if bad:
                 res["fails"].append(("HeaderClean", "the {} contains section lines: {}".format(nm, bad[:2])))
+        got = [ln.strip() for ln in parts[0].split("\n") if ln.strip()]
+        if got != prose_h:
+            res["fails"].append(("HeaderWhole", "the header part holds {} of the {} header prose lines (first odd one: {!r})".format(
+                len([x for x in got if x in prose_h]), len(prose_h),
+                next((x for x in got if x not in prose_h), None) or next((x for x in prose_h if x not in got), None))))
+        # where the section ends and the footer begins is NOT judged: the statement fixes only the concatenation identity, and as
+        # built the footer stays inside the section part (ReST, Google) or the cut falls inside the return entry (NumPy)
+        res["footer_in_footer_part"] = [ln.strip() for ln in parts[2].split("\n") if ln.strip()] == prose_f
     except Exception as e:  # noqa
         res["fails"].append(("SplitConcat", "the split raises {}: {}".format(type(e).__name__, str(e)[:80])))
     # ---- restyle ----
+    absorbed = []
     try:
         with contextlib.redirect_stdout(io.StringIO()), contextlib.redirect_stderr(io.StringIO()):
-            ir = dp.parse_docstring(text)
-            fields = []
-            for n, e in ir["params"].items():
-                fields += [str(e.get("typ", "")), str(e.get("default", ""))]
-            for e in (ir.get("returns") or {}).values():
-                fields += [str(e.get("typ", "")), str(e.get("default", ""))]
-            ir2 = copy.deepcopy(ir)
-            ir2["_internal"] = {"original_doc_str": text}
-            out = cdd.docstring.emit.docstring(ir2, docstring_format=case["to"], indent_level=case["indent"])
+            if case.get("route") == "function":
+                node, ir = function_parse(case, text, variant)
+            else:
+                ir = dp.parse_docstring(text)
+        fields = []
+        for n, e in ir["params"].items():
+            fields += [str(e.get("typ", "")), str(e.get("default", ""))]
+        for e in (ir.get("returns") or {}).values():
+            fields += [str(e.get("typ", "")), str(e.get("default", ""))]
+        absorbed = [ln for ln in prose_h + prose_f if any(ln in fld for fld in fields)]
+        if absorbed:
+            res["fails"].append(("NoProseInFields", "prose {} was absorbed into a type/default: {}".format(absorbed[:2], [x for x in fields if x][:4])))
+        with contextlib.redirect_stdout(io.StringIO()), contextlib.redirect_stderr(io.StringIO()):
+            if case.get("route") == "function":
+                out = function_emit(case, ir)
+            else:
+                ir2 = copy.deepcopy(ir)
+                ir2["_internal"] = {"original_doc_str": text}
+                out = cdd.docstring.emit.docstring(ir2, docstring_format=case["to"], indent_level=case["indent"])
         pos = 0
         out_lines = [ln.strip() for ln in out.split("\n")]
         for ln in prose_h:
@@ -110,12 +159,13 @@ def run_case(args):
                 res["fails"].append(("HeaderKept", "header line {!r} is missing (or out of order) after conversion {} -> {}".format(
                     ln, case["from"], case["to"])))
                 break
-        absorbed = [ln for ln in prose_h + prose_f if any(ln in fld for fld in fields)]
-        if absorbed:
-            res["fails"].append(("NoProseInFields", "prose {} was absorbed into a type/default: {}".format(absorbed[:2], [x for x in fields if x][:4])))
         res["out"] = out
     except Exception as e:  # noqa
-        res["fails"].append(("HeaderKept", "the restyle path raises {}: {}".format(type(e).__name__, str(e)[:80])))
+        if absorbed:
+            # the emitter chokes on the type that swallowed the prose: the same failure, already recorded under NoProseInFields
+            res["fails"][-1] = ("NoProseInFields", res["fails"][-1][1] + " (and the emitter then raises {})".format(type(e).__name__))
+        else:
+            res["fails"].append(("HeaderKept", "the restyle path raises {}: {}".format(type(e).__name__, str(e)[:80])))
     return res
 
 
@@ -126,8 +176,8 @@ def _batch(items):
 def check(run, replay=None):
     from harness import conv
 
-    run.rule = ("case = (header shape: 6 multi-paragraph shapes with blank / indented / doctest lines, footer shape: 4 incl. none, source "
-                "style, target style, indentation 0..2) x 2 parameter sets; the section is produced by the real emitter; distinct = "
+    run.rule = ("case = (header shape: 8 multi-paragraph shapes with blank / indented / doctest / dashed-underline lines, footer shape: 5 incl. none, "
+                "source style, target style, indentation 0..2, route: docstring parse+emit or function parse+emit) x 2 parameter sets; the section is produced by the real emitter; distinct = "
                 "distinct (case, parameter set)")
     run.tlc("DocSplit", "MC_DocSplit.cfg", workers=4, timeout=600)
     r = run.tlc("DocSplit", "MC_DocSplit_dump.cfg", shards=3, constants={"Enabled": conv.enabled_constant(run)}, timeout=600)
@@ -138,7 +188,7 @@ def check(run, replay=None):
     if replay:
         with open(replay) as f:
             want = json.load(f)["case"]["case"]
-        cases = [c for c in cases if all(c[k] == want[k] for k in ("h", "f", "from", "to", "indent"))]
+        cases = [c for c in cases if all(c.get(k) == want.get(k, c.get(k)) for k in ("h", "f", "from", "to", "indent", "route"))]
     run.exhaustive = True
     items = [(c, v) for c in cases for v in (0, 1)]
     tri = {}
@@ -148,11 +198,11 @@ def check(run, replay=None):
                 continue
             case = res["case"]
             run.replayed += 1
-            key = json.dumps([case["h"], case["f"], case["from"], case["to"], case["indent"], res["variant"]])
+            key = json.dumps([case["h"], case["f"], case["from"], case["to"], case["indent"], case.get("route"), res["variant"]])
             for d in case["devs"]:
                 run.trigger(d)
-            label = "header={} footer={} {}->{} indent={} params={}".format("".join(case["h"]), "".join(case["f"]) or "-", case["from"],
-                                                                            case["to"], case["indent"], res["variant"])
+            label = "header={} footer={} {}->{} indent={} route={} params={}".format(
+                "".join(case["h"]), "".join(case["f"]) or "-", case["from"], case["to"], case["indent"], case.get("route"), res["variant"])
             if not res["fails"]:
                 run.held(key)
             else:
@@ -161,7 +211,7 @@ def check(run, replay=None):
                 if unexplained:
                     run.violation("{}: {}".format(label, "; ".join(m for _, m in unexplained[:3])),
                                   {"case": case, "variant": res["variant"], "text": res.get("text"), "restyled": res.get("out")}, key=key)
-                    k2 = (case["from"], case["to"] if unexplained[0][0] != "SplitConcat" else "-", case["indent"], unexplained[0][0],
+                    k2 = (case["from"], case["to"] if not unexplained[0][0].startswith("Split") else "-", (case["indent"], case.get("route")), unexplained[0][0],
                           "".join(case["h"]), "".join(case["f"]))
                     tri[k2] = tri.get(k2, 0) + 1
                 else:
